@@ -135,6 +135,31 @@ pub async fn run_case(backend: &str, seed: u64, rep: &mut Report) -> anyhow::Res
             }
         }
     }
+    // a backup archive of device 0: the raw zip bytes and every (decompressed) entry
+    {
+        let (target, account_id) = { let mut a = w.devices[0].lock().await; let t = a.backend_target().await; let id = *a.account_id(); let _ = a.sign_out().await; (t, id) };
+        let zip = std::path::Path::new("/verif/run/tmp").join(format!("leak-archive-{seed}-{backend}-{}.zip", std::process::id()));
+        match sos_backend::archive::export_backup_archive(&zip, &target, &account_id).await {
+            Ok(_) => {
+                let mut bufs: Vec<(String, Vec<u8>)> = vec![("<zip bytes>".into(), std::fs::read(&zip).unwrap_or_default())];
+                match crate::archive::read_entries(&zip).await { Ok(es) => bufs.extend(es), Err(e) => rep.notes.push(format!("archive entries unreadable: {e}")) }
+                rep.count_n(&format!("{backend}:archive-entries-scanned"), bufs.len() as u64 - 1);
+                for (name, data) in &bufs {
+                    bytes_scanned += data.len() as u64;
+                    for (m, place, form, pat) in &patterns {
+                        if find(data, pat) {
+                            let kind = if name.ends_with(".vault") { "vault" } else if name.ends_with(".events") { "event-log" } else if name.ends_with(".json") { "json" } else if name.contains(".db") { "sqlite" } else { "other-entry" };
+                            rep.spec_fail(&format!("c03-plaintext-in-backup-archive:{}:{kind}", place.replace(' ', "-")), json!({"case_seed": seed, "backend": backend, "entry": name, "form": form, "marker": m}), &format!("the plaintext of '{place}' appears ({form}) in a backup archive"));
+                        }
+                    }
+                }
+                // scanner self-check on the archive as well
+                if !bufs.iter().any(|(_, d)| find(d, b"plain folder name")) { rep.spec_fail("c03-harness-scanner-self-check", json!({"case_seed": seed, "part": "archive"}), "the scanner did not find the clear folder name in the backup archive"); }
+            }
+            Err(e) => { rep.notes.push(format!("archive export failed ({backend}/{seed}): {e}")); rep.spec_fail("c03-harness-archive-export-failed", json!({"case_seed": seed, "backend": backend}), &e.to_string()); }
+        }
+        let _ = std::fs::remove_file(&zip);
+    }
     let wire = w.wire.lock().unwrap().clone();
     for buf in &wire {
         bytes_scanned += buf.len() as u64;
